@@ -37,6 +37,40 @@ impl Mat {
         }
         h
     }
+    /// same matrix written through the bulk operations (`set_col`, `set_row`,
+    /// `insert_col`, `insert_row`), some index lists naming an entry twice:
+    /// the documentation defines these as inserting each element in turn, so
+    /// a repeated index changes nothing
+    pub fn to_sparse_bulk(&self, rng: &mut Rng) -> SparseMatrix {
+        let mut h = SparseMatrix::new(self.rows, self.cols);
+        let by_col = rng.coin();
+        let set = rng.coin();
+        let mut lists = vec![Vec::new(); if by_col { self.cols } else { self.rows }];
+        for &(r, c) in &self.e {
+            if by_col {
+                lists[c].push(r);
+            } else {
+                lists[r].push(c);
+            }
+        }
+        for (k, l) in lists.iter_mut().enumerate() {
+            if !l.is_empty() && rng.chance(0.5) {
+                let extra = 1 + rng.below(2);
+                for _ in 0..extra {
+                    let x = l[rng.below(l.len())];
+                    l.push(x);
+                }
+            }
+            rng.shuffle(l);
+            match (by_col, set) {
+                (true, true) => h.set_col(k, l.iter()),
+                (true, false) => h.insert_col(k, l.iter()),
+                (false, true) => h.set_row(k, l.iter()),
+                (false, false) => h.insert_row(k, l.iter()),
+            }
+        }
+        h
+    }
     pub fn row_weights(&self) -> Vec<usize> {
         let mut w = vec![0; self.rows];
         for &(r, _) in &self.e {
